@@ -200,10 +200,18 @@ func c06RunMode(w *W, liveness bool) {
 	var calls []*blockingCall
 	mk := func() *blockingCall {
 		b := &blockingCall{}
-		if simrt.Choose(5) == 0 {
+		switch simrt.Choose(10) {
+		case 0, 1:
 			// an uncancellable caller: only the operation it waits for (or
 			// Close) can release it
 			b.ctx, b.cancel = context.Background(), func() {}
+			return b
+		case 2:
+			// a caller whose context has already ended when it calls
+			b.ctx, b.cancel = context.WithCancel(w.Ctx)
+			b.cancel()
+			b.canceled = true
+			calls = append(calls, b)
 			return b
 		}
 		b.ctx, b.cancel = context.WithCancel(w.Ctx)
@@ -241,6 +249,7 @@ func c06RunMode(w *W, liveness bool) {
 				b := mk()
 				seq = append(seq, func() {
 					op := h.Invoke(client, qIn{name, 0})
+					b.op = op
 					r, err := f(b.ctx)
 					h.Return(op, qOut{V: r, Err: errClass(err)})
 				})
@@ -249,6 +258,7 @@ func c06RunMode(w *W, liveness bool) {
 				b := mk()
 				seq = append(seq, func() {
 					op := h.Invoke(client, qIn{name, v})
+					b.op = op
 					err := f(b.ctx, v)
 					h.Return(op, qOut{Err: errClass(err)})
 				})
@@ -316,6 +326,7 @@ func c06RunMode(w *W, liveness bool) {
 	}
 	simrt.Quiesce()
 	if liveness {
+		blockedAfterCancel(w, "Deque", calls)
 		if n := h.ObserveBlocked(func(op string) any { return qIn{Op: op} }, func(in any) string { return in.(qIn).Op }); n > 0 {
 			w.Probe("blocked-at-quiescence")
 		}
